@@ -33,6 +33,8 @@ class TaggedUGrammar(UGrammar[U, V, W], Generic[T, U, V, W]):
     ):
         super().__init__(grammar.starts, grammar.rules, clean=False)
         self.grammar = grammar
+        # keep the request the grammar was compiled for, not the one guessed from the variables in use
+        self.type_request = grammar.type_request
         self.tags = tags
         self.start_tags = start_tags
 
